@@ -616,17 +616,19 @@ wallet, not in a flash loan, not in receivership, not already migrated; the posi
 account under the new authority, the old account is emptied, disabled and linked) — diffed against the real instruction by
 the `xfer` family; here on the fields `AcctV` carries. -/
 
-def flagBit (flags : Nat) (i : Nat) : Nat := if flags.testBit i then 2 ^ i else 0
+/-- every bit of the flag word except DISABLED (1), IN_FLASHLOAN (2), IN_RECEIVERSHIP (16), FROZEN (64) -/
+def OTHER_FLAGS_MASK : Nat := 2 ^ 64 - 1 - 83
 
 def toMAcct (a : AcctV) : Transfer.MAcct :=
   { group := a.group, authority := a.authority, slots := a.slots,
     disabled := a.flags.testBit 0, flash := a.flags.testBit 1, recv := a.flags.testBit 4, frozen := a.flags.testBit 6,
-    otherFlags := a.flags - (flagBit a.flags 0 + flagBit a.flags 1 + flagBit a.flags 4 + flagBit a.flags 6),
+    otherFlags := a.flags &&& OTHER_FLAGS_MASK,
     emisDest := 0, migratedFrom := 0, migratedTo := a.migratedTo, lastUpdate := 0 }
 
 def ofMAcct (key : Nat) (m : Transfer.MAcct) : AcctV :=
   { key, group := m.group, authority := m.authority, slots := m.slots, migratedTo := m.migratedTo,
-    flags := (if m.disabled then 1 else 0) + (if m.flash then 2 else 0) + (if m.recv then 16 else 0) + (if m.frozen then 64 else 0) + m.otherFlags }
+    flags := ((if m.disabled then 1 else 0) ||| (if m.flash then 2 else 0) ||| (if m.recv then 16 else 0) ||| (if m.frozen then 64 else 0)) |||
+             m.otherFlags }
 
 def transferIx (g : GroupV) (a : AcctV) (signer newKey newAuth : Nat) (feeWalletOk : Bool) : Res (AcctV × AcctV) :=
   (Transfer.transfer (toMAcct a) a.key g.key g.admin 1 g.paused signer newKey newAuth (if feeWalletOk then 1 else 2) 0).map
